@@ -31,7 +31,11 @@ THEOREMS = ["C14_history_independent_1d", "C14_history_independent_2d", "C14_his
             "C14_function_bounds_irrelevant_1d", "C14_function_bounds_irrelevant_2d", "C14_function_bounds_irrelevant_3d",
             "C14_outside_policy_1d", "C14_outside_policy_2d", "C14_outside_policy_3d",
             "C14_accepted_axis_is_increasing", "C14_closed_form_solves_the_1d_system", "C14_1d_system_has_one_solution",
-            "C14_error_bound_partial"]
+            "C14_error_bound_partial",
+            "C14_cubic_stability_any_nodes", "C14_error_bound_from_taylor_1d", "C14_error_bound_from_taylor_2d",
+            "C14_error_bound_from_taylor_3d", "C14_tensor_cubic_solves_the_2d_system", "C14_tensor_cubic_solves_the_3d_system",
+            "C14_2d_system_has_one_solution", "C14_3d_system_has_one_solution",
+            "C14_stored_block_is_that_polynomial_2d", "C14_stored_block_is_that_polynomial_3d"]
 
 EPS = 1.e-7
 VAL_TOL = 1e-9          # search: relative to the scale of the function, polynomial wrapped functions
@@ -95,6 +99,13 @@ def gen_axis(rng, dim, quick, exact):
 
 
 def gen_coord(rng, lo, hi, delta, nodes, cls, s=1.0, huge_ok=True, subnormal_ok=True):
+    c = gen_coord0(rng, lo, hi, delta, nodes, cls, s, huge_ok, subnormal_ok)
+    if not subnormal_ok and 0 < abs(c) < 2.0 ** -200:
+        c = math.copysign(2.0 ** -200, c)        # (one ulp from a bound / node that is exactly zero)
+    return c
+
+
+def gen_coord0(rng, lo, hi, delta, nodes, cls, s=1.0, huge_ok=True, subnormal_ok=True):
     """one coordinate; lo, hi, delta, nodes are the (scaled) values handed to the constructor, s the coordinate scale"""
     top = len(nodes) - 1
     if cls == "in":
@@ -443,7 +454,8 @@ def coq_case(case, out):
     return "check%d %s %s %s %s [%s] [%s] [%s] [%s]" % (
         dim, " ".join(nested_q(ax) for ax in axes), fb, "true" if case["nbe"] else "false",
         nested_q(case["fn"]["coeffs"]), "; ".join(qtuple(p) for p in case["pts"]), ";\n     ".join(steps),
-        "; ".join(ztuple(k) for k in out["cells"]), "; ".join(ztuple(k) for k in out["nodes"]))
+        "; ".join(ztuple(k) for k in out["cells"]),
+        "; ".join("(%s, %s)" % (ztuple(k), qlit(v)) for k, v in zip(out["nodes"], out["node_values"])))
 
 
 def count_ambiguous(case):
@@ -708,6 +720,21 @@ def run(ctx):
     ctx.rebuild()
     ctx.proofs("Properties.C14", THEOREMS, extra_modules=("Model.C14_Check",))
 
+    # ---- translator: rows, right-hand sides, EPSILON regenerated from the current source; kernel-checked tie ----
+    import c14_translate
+    from common import coqc
+    try:
+        tinfo = c14_translate.generate(REPO, ctx.gen)
+        ctx.obligation("translator: caching{1,2,3}d.pyx -> Gen/C14/C14_Src.v", "tie", True, json.dumps(tinfo))
+        ok1, out1 = coqc(os.path.join(ctx.gen, "C14_Src.v"))
+        ok2, out2 = coqc(os.path.join(ctx.gen, "C14_SrcTie.v")) if ok1 else (False, "C14_Src.v did not compile")
+        ctx.obligation("Gen tie lemmas C14_SrcTie.v (EPSILON, cm rows 1-D/2-D, _constraints3d components and flags, cv right-hand "
+                       "sides 1-D/2-D/3-D)", "tie", ok1 and ok2, (out1 + out2)[-1500:])
+    except c14_translate.TranslateError as e:
+        tinfo = {"error": str(e)}
+        ctx.obligation("translator: caching{1,2,3}d.pyx -> Gen/C14/C14_Src.v", "tie", False,
+                       "the source is no longer in the form the model was tied to: %s" % e)
+    ctx.log("translator:", json.dumps(tinfo)[:200])
     rng = ctx.rng
     quick = ctx.quick
     # ---- replay ---------------------------------------------------------------------------------
@@ -965,13 +992,17 @@ def run(ctx):
         "cases": len(cases), "coq_checks": len(texts), "correspondence_disagreements": len(diff),
         "tolerance": {"value (Coq)": "2^-34 * (bound of |f| on the grid box and at the point + |function bounds|)",
                       "node positions (Coq)": "2^-46 * (|lo| + |hi| + |delta| + 1)", "calls, exception kind, cached cells, sampled nodes": "exact",
+                      "data_view entries (Coq, intermediate values)": "2^-44 * (bound of |f| + |data_min|) / |data_delta|",
                       "used vs fresh object (search)": "bit for bit",
                       "search values": "%g * scale (polynomial wrapped functions); sin/exp wrapped functions: %s * scale by dimension "
                                        "(numerical conditioning of the code's solve + monomial basis, measured)" % (VAL_TOL, SMOOTH_TOL), "error bound (search)": "%g * h^2 * sum max|d_a d_b f|" % ERR_MULT},
         "measured": {k: v for k, v in stats.items() if k.startswith("max_")},
-        "partial": ["error bound for twice-differentiable functions: proved are exactness on quadratics in uniform cells and the "
-                    "stability bound of the cubic against any affine function; the Taylor remainder is not proved (checked numerically by the search)",
-                    "2-D/3-D coefficient solve is modelled by the tensor product and tied by values only"],
+        "regenerated_from_source": tinfo,
+        "partial": ["error bound for twice-differentiable functions: proved for every cell, 1-D/2-D/3-D, from Taylor's inequality at the "
+                    "evaluation point as a hypothesis (|v - f| <= 3 Mx Hx^2 + 9/2 My Hy^2 + 27/4 Mz Hz^2); Taylor's theorem itself (reals) is "
+                    "not proved (the bound is also checked numerically by the search)",
+                    "2-D/3-D: the tensor-product cubic is proved to be the unique solution of the 16x16 / 64x64 systems whose rows and "
+                    "right-hand sides are regenerated from the source; that LAPACK returns it up to rounding is tied by values"],
     })
     samples = []
     for c, o in (nt[:1] + [(c, o) for c, o in zip(cases, outs) if c["dim"] == 2 and c["pts"]][:1]):
